@@ -71,7 +71,31 @@ func (f *fakeS3) GetObjectWithContext(ctx aws.Context, in *s3.GetObjectInput, o 
 	if !ok {
 		return nil, errors.New("NoSuchKey")
 	}
-	return &s3.GetObjectOutput{Body: io.NopCloser(bytes.NewReader(b))}, nil
+	// like a body that arrives over the network: the length is announced, the bytes come in pieces
+	n := int64(len(b))
+	return &s3.GetObjectOutput{Body: io.NopCloser(&pieces{b: b, step: 1 + len(b)/3}), ContentLength: &n}, nil
+}
+
+// pieces hands out a byte slice a few bytes per Read call
+type pieces struct {
+	b    []byte
+	step int
+}
+
+func (p *pieces) Read(out []byte) (int, error) {
+	if len(p.b) == 0 {
+		return 0, io.EOF
+	}
+	n := p.step
+	if n > len(out) {
+		n = len(out)
+	}
+	if n > len(p.b) {
+		n = len(p.b)
+	}
+	copy(out, p.b[:n])
+	p.b = p.b[n:]
+	return n, nil
 }
 func (f *fakeS3) PutObjectWithContext(ctx aws.Context, in *s3.PutObjectInput, o ...request.Option) (*s3.PutObjectOutput, error) {
 	b, err := io.ReadAll(in.Body)
